@@ -678,7 +678,10 @@ def _storage_features(ctx: Ctx, c, mname: str) -> dict:
     if m is None:
         return {}
     g = ctx.cfg(m)
-    k2p = [call for call in calls_in(m.node) if isinstance(call.func, ast.Attribute) and call.func.attr == '_key_to_path']
+    # the class's key-to-path helper: its method that calls the key validator
+    vq = ctx.P.func('storage.validate_file_path_key').qualname
+    wrappers = {mm.name for mm in c.methods.values() if any(vq in ctx.P.resolve_call(x, mm) for x in calls_in(mm.node))}
+    k2p = [call for call in calls_in(m.node) if isinstance(call.func, ast.Attribute) and call.func.attr in wrappers]
     feats = {'key_through_validator': bool(k2p) and all(isinstance(kwarg(c2, 'key', 0), ast.Name) and kwarg(c2, 'key', 0).id == 'key' for c2 in k2p)}
     raw_key_uses = [n for n in walk_local(m.node) if isinstance(n, ast.Name) and n.id == 'key' and isinstance(n.ctx, ast.Load)
                     and not any(n is kwarg(c2, 'key', 0) for c2 in k2p)]
@@ -840,3 +843,53 @@ def key_format_agree(ctx: Ctx):
     ok = a[:len(b)] == b
     yield ctx.ob('C09.KEY-FORMAT-AGREE', ok, lm, pre, 'startswith template is a prefix of the cache_key template',
                  '' if ok else f'load_metadata tests for prefix {b} but cache_key builds {a}')
+
+
+@rule('C08.FIND-KEYS', ['C08', 'C09'])
+def find_keys(ctx: Ctx):
+    """find_keys lists every entry of the storage directory: LocalStorage returns the name of every
+    directory under the root (only non-directories are skipped), FsspecStorage every listed entry relative to
+    the root; NullStorage none."""
+    ls = ctx.P.cls('storage.LocalStorage')
+    fk = ls.methods.get('find_keys')
+    if fk is None:
+        raise AnalysisError('LocalStorage.find_keys missing')
+    from .c18 import root_field
+    root = root_field(ctx)
+    sn = fk.self_name
+    comps = [n for n in walk_local(fk.node) if isinstance(n, (ast.ListComp, ast.GeneratorExp, ast.SetComp))]
+    ok = False
+    why = 'find_keys does not list the entries of the storage directory with a comprehension / loop over iterdir()'
+    for cp in comps:
+        gen = cp.generators[0]
+        it = gen.iter
+        if isinstance(it, ast.Call) and isinstance(it.func, ast.Attribute) and it.func.attr == 'iterdir' \
+                and same_expr(it.func.value, ast.parse(f'{sn}.{root}', mode='eval').body) and isinstance(gen.target, ast.Name):
+            v = gen.target.id
+            filt_ok = all(same_expr(i, ast.parse(f'{v}.is_dir()', mode='eval').body) for i in gen.ifs) and len(gen.ifs) <= 1
+            elt_ok = same_expr(cp.elt, ast.parse(f'{v}.name', mode='eval').body)
+            ok = filt_ok and elt_ok and len(cp.generators) == 1
+            if not filt_ok:
+                why = f'find_keys filters entries by `{" and ".join(src(i) for i in gen.ifs)}`: cached entries can be hidden from cached_tasks'
+            elif not elt_ok:
+                why = f'find_keys returns `{src(cp.elt)}` instead of the entry name'
+    rets = [n for n in walk_local(fk.node) if isinstance(n, ast.Return)]
+    sliced = any(isinstance(x, ast.Subscript) and isinstance(x.slice, ast.Slice) for r in rets for x in ast.walk(r))
+    yield ctx.ob('C08.FIND-KEYS', ok and not sliced and len(rets) == 1, fk, fk.node, 'LocalStorage.find_keys = names of all directories under the root',
+                 '' if ok and not sliced and len(rets) == 1 else why, construct='local')
+    fs = ctx.P.cls('storage.FsspecStorage')
+    ffk = fs.methods.get('find_keys')
+    okf = False
+    if ffk is not None:
+        for cp in [n for n in walk_local(ffk.node) if isinstance(n, (ast.ListComp, ast.GeneratorExp))]:
+            gen = cp.generators[0]
+            okf = isinstance(gen.iter, ast.Call) and isinstance(gen.iter.func, ast.Attribute) and gen.iter.func.attr == 'ls' \
+                and not gen.ifs and 'relative_to' in src(cp.elt)
+    yield ctx.ob('C08.FIND-KEYS', okf, ffk, ffk.node if ffk else None, 'FsspecStorage.find_keys = every listed entry relative to the root',
+                 '' if okf else 'FsspecStorage.find_keys does not return every listed entry', construct='fsspec')
+    ns = ctx.P.cls('storage.NullStorage')
+    nfk = ns.methods.get('find_keys')
+    rets = [n for n in walk_local(nfk.node) if isinstance(n, ast.Return)] if nfk else []
+    okn = bool(rets) and all(isinstance(r.value, (ast.List, ast.Tuple)) and not r.value.elts for r in rets)
+    yield ctx.ob('C08.FIND-KEYS', okn, nfk, nfk.node if nfk else None, 'NullStorage.find_keys is empty', '' if okn else
+                 'NullStorage.find_keys reports keys', construct='null')
